@@ -48,23 +48,24 @@ type gitem struct {
 }
 
 type gmod struct {
-	id        int
-	path      string // relative to the root, forward slashes
-	kind      int
-	locals    []localExport
-	hasDef    bool
-	defFn     bool // export default function
-	imports   []gimport
-	reexps    []greexp
-	stars     []int
-	items     []gitem // source order of import/export-from statements (ESM)
-	dyn       []int   // import() targets (queued on $Q)
-	requires  []int   // require() targets (CJS files only)
-	cjsAssign bool    // module.exports = {...} instead of exports.x =
-	cjsEsm    bool    // exports.__esModule = true; exports.default = ...
-	throws    bool
-	json      string
-	aliasTwo  bool // export {v as p, v as q}: one binding under two names
+	id            int
+	path          string // relative to the root, forward slashes
+	kind          int
+	locals        []localExport
+	hasDef        bool
+	defFn         bool // export default function
+	imports       []gimport
+	reexps        []greexp
+	stars         []int
+	items         []gitem // source order of import/export-from statements (ESM)
+	dyn           []int   // import() targets (queued on $Q)
+	requires      []int   // require() targets (CJS files only)
+	cjsAssign     bool    // module.exports = {...} instead of exports.x =
+	cjsEsm        bool    // exports.__esModule = true; exports.default = ...
+	throws        bool
+	json          string
+	aliasTwo      bool // export {v as p, v as q}: one binding under two names
+	unusedImports bool // fixed scenario only: leave imported bindings unreferenced
 }
 
 type ggraph struct {
@@ -90,6 +91,20 @@ type gres struct {
 	mod   int
 	bind  string
 	via   int // the ES module whose import record targets the CommonJS/JSON file that defines the binding (-1: none)
+}
+
+// export * targets in the order of the statements (the order ResolveExport visits them)
+func (md *gmod) starsInSourceOrder() []int {
+	var out []int
+	for _, it := range md.items {
+		if it.kind == "star" {
+			out = append(out, md.stars[it.idx])
+		}
+	}
+	if len(out) != len(md.stars) {
+		return md.stars
+	}
+	return out
 }
 
 func (g *ggraph) cjsNames(m *gmod) []string {
@@ -172,7 +187,7 @@ func (g *ggraph) resolveFrom(m int, name string, set map[string]bool, fromIndire
 		return gres{}
 	}
 	star := gres{}
-	for _, t := range md.stars {
+	for _, t := range md.starsInSourceOrder() {
 		r := g.resolveFrom(t, name, set, false)
 		if r.state == 2 {
 			if len(md.stars) > 1 {
@@ -314,6 +329,33 @@ func (g *ggraph) reachesStatic(from, to int) bool {
 	return false
 }
 
+// evalBefore: module d has certainly finished evaluating when the body of module a
+// runs: there is a static import path a -> n1 -> ... -> d none of whose nodes
+// (d included) reaches a again (such nodes cannot be ancestors still in progress)
+func (g *ggraph) evalBefore(d, a int) bool {
+	if d == a {
+		return false
+	}
+	seen := map[int]bool{}
+	var walk func(int) bool
+	walk = func(x int) bool {
+		for _, n := range g.staticDeps(x) {
+			if n == a || seen[n] {
+				continue
+			}
+			seen[n] = true
+			if g.mods[n].kind == modESM && g.reachesStatic(n, a) {
+				continue
+			}
+			if n == d || walk(n) {
+				return true
+			}
+		}
+		return false
+	}
+	return walk(a)
+}
+
 // validate: every import and indirect export resolves; returns a description of the first problem
 func (g *ggraph) firstLinkProblem() (int, string, int) {
 	g.problemKnown = false
@@ -384,17 +426,60 @@ func genGraph(r *Rng, o genOpts) *ggraph {
 	for {
 		g := genGraph1(r, o)
 		g.nestedAmb = false
+		anyAmb := false
 		for _, md := range g.mods {
 			if md.kind == modESM {
 				for _, n := range g.exportedNames(md.id, map[int]bool{}) {
-					g.resolve(md.id, n, map[string]bool{})
+					if g.resolve(md.id, n, map[string]bool{}).state == 2 {
+						anyAmb = true
+					}
 				}
 			}
 		}
-		if !g.nestedAmb {
+		// V8 memoises star resolutions while instantiating a cycle of "export *" edges and then
+		// reports a name that ECMA-262 makes ambiguous as found: no usable native oracle there
+		// ... and it keeps going after a conflict below another star.  Ambiguous names are therefore
+		// only generated in graphs without chains of export stars (the fixed graphs cover chains)
+		if !g.nestedAmb && !(anyAmb && (g.hasStarCycle() || g.hasStarChain())) {
 			return g
 		}
 	}
+}
+
+func (g *ggraph) hasStarChain() bool {
+	for _, md := range g.mods {
+		for _, t := range md.stars {
+			if len(g.mods[t].stars) > 0 {
+				return true
+			}
+		}
+	}
+	return false
+}
+
+func (g *ggraph) hasStarCycle() bool {
+	for _, md := range g.mods {
+		seen := map[int]bool{}
+		var walk func(int) bool
+		walk = func(x int) bool {
+			for _, t := range g.mods[x].stars {
+				if t == md.id {
+					return true
+				}
+				if !seen[t] {
+					seen[t] = true
+					if walk(t) {
+						return true
+					}
+				}
+			}
+			return false
+		}
+		if walk(md.id) {
+			return true
+		}
+	}
+	return false
 }
 
 func genGraph1(r *Rng, o genOpts) *ggraph {
@@ -823,6 +908,19 @@ func (g *ggraph) renderESM(md *gmod) string {
 		}
 	}
 	fmt.Fprintf(&sb, "$L.push(\"%d:start\");\n", id)
+	if !md.unusedImports {
+		// every imported binding is referenced (in a closure that is never called): with
+		// minify-syntax an UNUSED import of a missing export is silently dropped (recorded finding)
+		var uses []string
+		for _, im := range md.imports {
+			if im.form != "side" {
+				uses = append(uses, im.local)
+			}
+		}
+		if len(uses) > 0 {
+			fmt.Fprintf(&sb, "globalThis.$U%d = () => [%s];\n", id, strings.Join(uses, ", "))
+		}
+	}
 	for _, l := range md.locals {
 		v := fmt.Sprintf("%d.%s", id, l.name)
 		switch l.decl {
@@ -930,7 +1028,7 @@ func (g *ggraph) safeReadD(m int, im gimport, depth int) bool {
 	if d.kind != modESM {
 		// CommonJS / JSON: the value is read through the module that imports the file,
 		// which must have been evaluated (the importer itself hoists it)
-		return r.via < 0 || (r.via != m && !g.reachesStatic(r.via, m) && !g.mods[r.via].throws)
+		return r.via < 0 || (g.evalBefore(r.via, m) && !g.mods[r.via].throws)
 	}
 	if r.bind == "*namespace*" {
 		return g.safeNSD(m, r.mod, depth+1)
@@ -947,7 +1045,7 @@ func (g *ggraph) safeReadD(m int, im gimport, depth int) bool {
 			}
 		}
 	}
-	return r.mod != m && !g.reachesStatic(r.mod, m) && !d.throws
+	return g.evalBefore(r.mod, m) && !d.throws
 }
 
 // reading a namespace object's property values: every binding it exposes must be initialised
